@@ -70,10 +70,10 @@ func genC01(r *Rng, tier string) *Plan {
 			g.P.Meta["pubkey-manipulated"] = "1"
 		}
 	}
-	strTypes := []string{"printable", "utf8", "utf8", "ia5", "teletex"}
+	strTypes := []string{"printable", "utf8", "utf8", "ia5", "teletex", "bmp"}
 	foreign := func(e *EntitySpec, label string) {
 		fp := ForeignParams{Parts: "cert+key", Str: Pick(r, strTypes), KeyAlg: e.KeyAlg, Pub: r.Bool(), AltDN: r.Chance(1, 3),
-			P8: Pick(r, []string{"outer", "both"}), Pad: Pick(r, []string{"fixed", "fixed", "stripped", "extra"})}
+			P8: Pick(r, []string{"outer", "both"}), Pad: Pick(r, []string{"fixed", "fixed", "stripped", "extra"}), MultiRDN: r.Chance(1, 6)}
 		if keyFamily(e.KeyAlg) == "rsa" {
 			fp.P8 = Pick(r, []string{"null", "noparams"})
 		} else if r.Chance(1, 3) {
